@@ -53,8 +53,13 @@ func jobsFor(prop, tier string) []*Job {
 			}
 			for _, part := range parts {
 				add(&Job{Name: fmt.Sprintf("O2-window/n=%d,wmax=%d,w0=%d", n, wmax, part), Pkg: "roundrobin", Harness: "VerifC01Window",
-					Params: p("n", n, "wmax", wmax, "part", part), Unwind: 2*n*wmax + 8, IncKind: "cvc5",
+					Params: p("n", n, "wmax", wmax, "part", part, "failed", 0), Unwind: 2*n*wmax + 8, IncKind: "cvc5",
 					Bounds: fmt.Sprintf("n=%d servers, weights symbolic in [0,%d] not all zero (w0 fixed per job when >= 0), every window offset k0 in [0,W), window length W=sum/gcd", n, wmax)})
+				if n >= 2 {
+					add(&Job{Name: fmt.Sprintf("O2f-window-after-failed-upsert/n=%d,wmax=%d,w0=%d", n, wmax, part), Pkg: "roundrobin", Harness: "VerifC01Window",
+						Params: p("n", n, "wmax", wmax, "part", part, "failed", 1), Unwind: 2*n*wmax + 8, IncKind: "cvc5",
+						Bounds: fmt.Sprintf("as O2-window, but the last server's re-weighting is an invalid call (Weight(w), Weight(-1)) made after 0..3 selections (symbolic): it fails, and every window afterwards is proportional to the weights the balancer reports; n=%d, weights in [0,%d]", n, wmax)})
+				}
 			}
 		}
 	case "C03", "C13":
